@@ -307,10 +307,19 @@ class NP:
         a = _np.empty(_shape(shape), dtype=object).view(OA)
         a.fill(1.0 if dtype in (float, None, _np.float64, _np.float32) else (True if dtype is bool else 1))
         return a
-    def full(self, shape, v, **k):
+    def full(self, shape, v, dtype=None, **k):
+        if k:
+            raise Unsupported(f"np.full keywords {sorted(k)}")
         g = _generic_alloc(shape, v)
         if g is not None:
+            if dtype is not None:
+                # the fill value is cast to the requested data type (an integer type truncates it)
+                if not hasattr(g, "astype"):
+                    raise Unsupported("np.full(dtype=...) of this generic array")
+                return g.astype(_np.dtype(dtype).type if not isinstance(dtype, str) else dtype)
             return g
+        if dtype is not None and _np.dtype(dtype).kind != "f":
+            raise Unsupported("np.full with a non-float dtype on a concrete shape")
         a = _np.empty(_shape(shape), dtype=object).view(OA)
         a.fill(v)
         return a
